@@ -236,6 +236,22 @@ def scenarios(prop, tier, rng):
             for s1, s2, ts, te in half_grid_pairs(2 if q else 3):
                 for mt in (0, Fr(3, 4)):
                     yield {'trains': [(s1, ts, te), (s2, ts, te)], 'kw': {'mrts': 0, 'ri': 0, 'max_tau': mt}}
+    if prop in ('C18', 'C07', 'C05'):
+        # every combination of degenerate trains
+        ts, te = Fr(0), Fr(4)
+        cat = [[], [ts], [te], [ts, te], [Fr(2)], [Fr(1), Fr(3)], [ts, Fr(2)], [Fr(2), te]]
+        combos = [(a, b) for a in cat for b in cat]
+        if prop == 'C18':
+            tri = [(a, b, c) for a in cat for b in cat for c in cat]
+            combos += tri if not q else rng.sample(tri, 60)
+        for combo in combos:
+            for kw in ({'mrts': 0, 'ri': 0, 'max_tau': 0}, {'mrts': 'auto' if prop != 'C07' else 1, 'ri': 1, 'max_tau': 1}):
+                if q and kw['ri'] and rng.random() < 0.5:
+                    continue
+                sc = {'trains': [(list(s_), ts, te) for s_ in combo], 'kw': dict(kw)}
+                if kw['ri'] and prop != 'C05':
+                    sc['interval'] = [Fr(1), Fr(3)]
+                yield sc
     for _ in range(n):
         if prop == 'C13':
             sc = base(rng)
@@ -276,7 +292,7 @@ def scenarios(prop, tier, rng):
                 sc.pop('interval', None)
             if prop == 'C20':
                 sc['bins'] = rng.choice([1, 2, 4, 8])
-            if prop in ('C01', 'C02', 'C03', 'C04', 'C16', 'C17', 'C20', 'C15'):
+            if prop in ('C01', 'C02', 'C03', 'C04', 'C17', 'C20', 'C15'):
                 sc.pop('interval', None)
             if prop in ('C05', 'C18') and rng.random() < 0.25:
                 sc['kw']['mrts'] = 'auto'
